@@ -62,6 +62,13 @@ EmptyConnCfgs ==
   {[Base EXCEPT !.nodes = <<Leaf(TRUE, FALSE, 1), Leaf(FALSE, FALSE, 1), FlowNode(1)>>, !.top = 3,
                 !.conns = <<ConnSeq(3, << <<1, 1>>, <<1, 0>>, <<1, 1>>, <<2, 0>> >>, tg)>>, !.acts = {0, 1}, !.outs = {"ok"}] :
       tg \in [1..4 -> {-1, 0, 1, 2}]}
+\* a flow that contains itself: a step of flow 3 (never its start) is flow 3 again - one frame per level on the call stack
+\* of the specification, local variables of Flow.Exec in the code; the recursion ends when a later visit's action leads
+\* elsewhere (every level visits leaf 1 first, so the visit bound cuts the exploration)
+SelfNestCfgs ==
+  {[Base EXCEPT !.nodes = <<Leaf(TRUE, FALSE, 1), Leaf(FALSE, FALSE, 1), FlowNode(1)>>, !.top = 3,
+                !.conns = <<ConnSeq(3, << <<1, 1>>, <<1, 2>>, <<2, 1>>, <<3, 1>>, <<3, 2>> >>, tg)>>, !.acts = {1, 2}, !.outs = {"ok"}] :
+      tg \in {t \in [1..5 -> {-1, 1, 2, 3}] : \E i \in 1..3 : t[i] = 3}}
 \* errors anywhere on the path (C04): budgets and fallbacks on the path
 FlowErrCfgs ==
   {[Base EXCEPT !.nodes = <<Leaf(TRUE, TRUE, 2), Leaf(FALSE, FALSE, 1), FlowNode(1)>>, !.top = 3,
@@ -154,6 +161,7 @@ Cfgs == CASE Family = "single"       -> SingleCfgs
           [] Family = "zerobudget"   -> ZeroBudgetCfgs
           [] Family = "dynwire"      -> DynWireCfgs
           [] Family = "emptyconn"    -> EmptyConnCfgs
+          [] Family = "selfnest"     -> SelfNestCfgs
 
 MCInit == \E c \in Cfgs : InitWith(c)
 MCSpec == MCInit /\ [][Next]_vars
